@@ -198,6 +198,10 @@ func c07Handle(raw []byte) map[string]interface{} {
 	out := map[string]interface{}{}
 	compile := func() (*tengo.Compiled, error) {
 		s := tengo.NewScript([]byte(cs.Src))
+		// a host function that panics: the Go-panic path of the spawned goroutine
+		_ = s.Add("boom", &tengo.UserFunction{Name: "boom", Value: func(args ...tengo.Object) (tengo.Object, error) {
+			panic("boom")
+		}})
 		return s.Compile()
 	}
 	base := runtime.NumGoroutine()
